@@ -336,6 +336,10 @@ pub fn reader_scenarios(tier: Tier) -> (Vec<RScenario>, u32, String) {
         let fs = vec![small.clone(), tiny.clone()];
         out.push(RScenario { frames: fs.clone(), avail: wire(&fs).len(), max_len: Some(2), ctor: 0, relimit: Some((0, 3)) });
     }
+    if tier == Tier::Thorough {
+        let fs = vec![frame_2_pow_31()];
+        out.push(RScenario { frames: fs.clone(), avail: 4, max_len: Some(u32::MAX), ctor: 0, relimit: None });
+    }
     for h in hostile_frames() {
         for lead in [vec![], vec![kinds[0].clone()]] {
             let mut fs = lead.clone();
@@ -434,6 +438,11 @@ pub fn writer_scenarios(tier: Tier) -> (Vec<WScenario>, u32, String) {
 
 pub fn run(r: &Report) {
     const FIRST: usize = 12;
+    if r.tier == Tier::Thorough {
+        // one scenario lets the reader provide a 2 GiB buffer (declared length 2^31 under a limit of u32::MAX): the
+        // emergency cap moves out of the way, the per-call bound (2 x largest admissible frame + 4096) stays
+        mcx::alloc::CAP.store(5 << 30, std::sync::atomic::Ordering::SeqCst);
+    }
     let (rs, rint, rbound) = reader_scenarios(r.tier);
     r.space("reader-fragmentation", true, &rbound, 3);
     mcx::par::run_shards(
@@ -527,7 +536,7 @@ pub fn replay_case(case: &serde_json::Value) -> Result<(), String> {
     let ints = case["interrupts"].as_u64().unwrap() as u32;
     if sc["side"] == "reader" {
         let names: Vec<String> = sc["frames"].as_array().unwrap().iter().map(|x| x.as_str().unwrap().to_string()).collect();
-        let all: Vec<Frame> = frame_kinds().into_iter().chain(hostile_frames()).chain(large_frames()).collect();
+        let all: Vec<Frame> = frame_kinds().into_iter().chain(hostile_frames()).chain(large_frames()).chain([frame_2_pow_31()]).collect();
         let frames: Vec<Frame> = names.iter().map(|n| all.iter().find(|f| f.name == n).unwrap().clone()).collect();
         let scen = RScenario { frames, avail: sc["bytes_before_end_of_stream"].as_u64().unwrap() as usize, max_len: sc["max_len"].as_u64().map(|x| x as u32), ctor: sc["constructor"].as_u64().unwrap_or(0) as u8, relimit: sc["relimit"].as_array().map(|a| (a[0].as_u64().unwrap() as usize, a[1].as_u64().unwrap() as u32)) };
         let mut o = None;
